@@ -40,7 +40,7 @@ def if_parts(n):
 
 def check_supported(func_body, fname):
     for n in walk(func_body):
-        if n.get('kind') in ('GotoStmt', 'SwitchStmt', 'IndirectGotoStmt', 'LabelStmt'):
+        if n.get('kind') in ('GotoStmt', 'IndirectGotoStmt', 'LabelStmt'):
             raise fe.AnalysisBroken('%s uses %s: the structured-CFG builder does not model it' % (fname, n['kind']))
 
 
@@ -123,6 +123,28 @@ def path_conditions(pm, target, stop=None, byname=False):
                         conds += exprs.conjuncts(c, False, byname)
                     elif e is not None and exits(e) and not exits(t):
                         conds += exprs.conjuncts(c, True, byname)
+        elif k == 'SwitchStmt':
+            # labels under which `target` is reached: the case labels between the last `break` before it and itself
+            ks = kids(anc)
+            body = ks[-1]
+            cond = ks[0]
+            labels, found = [], False
+            for stmt in (kids(body) if body.get('kind') == 'CompoundStmt' else [body]):
+                cur_labels = []
+                inner = stmt
+                while inner.get('kind') in ('CaseStmt', 'DefaultStmt'):
+                    cur_labels.append(fe.int_value(kids(inner)[0]) if inner['kind'] == 'CaseStmt' else 'default')
+                    inner = kids(inner)[-1] if kids(inner) else {}
+                labels += cur_labels
+                if any(x is target or x is child for x in walk(stmt)):
+                    found = True
+                    break
+                if inner.get('kind') == 'BreakStmt' or exits(inner):
+                    labels = []
+            if found and labels and 'default' not in labels and all(l is not None for l in labels):
+                cp = exprs.to_poly(cond, byname=byname)
+                alts = [tuple([exprs.canon_rel('==', cp, exprs.Poly.const(l))]) for l in labels]
+                conds.append(alts[0][0] if len(alts) == 1 else ('or', frozenset(alts)))
         if anc is stop:
             break
         child = anc
